@@ -482,8 +482,7 @@ def str_encode(ip, args, kwargs, node):
 
 def bytes_decode(ip, args, kwargs, node):
     b = args[0]
-    tag = getattr(b, "from_str", True)
-    if isinstance(b, VBytes) and getattr(b, "arbitrary", False):
+    if isinstance(b, VBytes) and getattr(b, "arbitrary", False) and not ip.spec_mode:
         # arbitrary network bytes: decoding may fail
         if ip.st.choose(2, "decode") == 1:
             raise_("UnicodeDecodeError")
@@ -658,6 +657,7 @@ _orig_build = build_lib
 def build_lib():  # noqa: F811
     lib = _orig_build()
     lib.update(SPEC_LIB)
-    from . import loops
+    from . import loops, strings
     loops.install(lib)
+    strings.install(lib)
     return lib
